@@ -1017,4 +1017,337 @@ theorem same_boundaries (s : Bytes) (hc : cleanRequest s = true) (q : Req) (r : 
                   · simp [he] at hb
             · simp [hu] at hh
 
+/-! ### segmentation independence -/
+
+def mapN {α} (o : Option (α × RS)) : Option (α × Bytes) := o.map (fun p => (p.1, norm p.2))
+
+theorem readLine_of_split (s l r : Bytes) (h : C23.splitLF s = some (l, r)) :
+    readLine s = some (dropLastCR l, r) := by
+  unfold readLine
+  cases s with
+  | nil => simp [C23.splitLF] at h
+  | cons a t => simp only [h]
+
+theorem readLineS_norm : ∀ (segs : List Bytes) (buf : Bytes),
+    mapN (readLineS buf segs) = readLine (buf ++ segs.flatten) := by
+  intro segs
+  induction segs with
+  | nil =>
+    intro buf
+    simp only [readLineS, List.flatten_nil, List.append_nil, mapN, Option.map_map]
+    cases readLine buf with
+    | none => rfl
+    | some q => simp [norm]
+  | cons g rest ih =>
+    intro buf
+    simp only [readLineS, List.flatten_cons]
+    cases hs : C23.splitLF buf with
+    | some q =>
+      obtain ⟨l, r⟩ := q
+      simp only []
+      rw [readLine_of_split _ l _ (C23.splitLF_append_some buf l r _ hs)]
+      simp [mapN, norm]
+    | none =>
+      simp only []
+      rw [ih (buf ++ g), List.append_assoc]
+
+theorem headS_norm : ∀ (segs : List Bytes) (buf : Bytes), headS buf segs = (buf ++ segs.flatten).head? := by
+  intro segs
+  induction segs with
+  | nil => intro buf; cases buf <;> simp [headS]
+  | cons g rest ih =>
+    intro buf
+    cases buf with
+    | nil => simp only [headS, List.nil_append, List.flatten_cons]; exact ih g
+    | cons b t => simp [headS]
+
+theorem dropWhile_nil_all {α} (p : α → Bool) : ∀ l : List α, l.dropWhile p = [] → ∀ x ∈ l, p x = true := by
+  intro l
+  induction l with
+  | nil => intro _ x hx; simp at hx
+  | cons y t ih =>
+    intro h x hx
+    simp only [List.dropWhile_cons] at h
+    by_cases hy : p y = true
+    · simp only [hy, if_true] at h
+      rcases List.mem_cons.mp hx with rfl | hx
+      · exact hy
+      · exact ih h x hx
+    · simp [hy] at h
+
+theorem dropWhile_cons_append {α} (p : α → Bool) : ∀ (l : List α) (b : α) (t y : List α),
+    l.dropWhile p = b :: t → (l ++ y).dropWhile p = b :: t ++ y := by
+  intro l
+  induction l with
+  | nil => intro b t y h; simp at h
+  | cons z l' ih =>
+    intro b t y h
+    simp only [List.dropWhile_cons, List.cons_append] at h ⊢
+    by_cases hz : p z = true
+    · simp only [hz, if_true] at h ⊢; exact ih b t y h
+    · simp [hz] at h ⊢
+      obtain ⟨h1, h2⟩ := h
+      simp [h1, h2]
+
+theorem skipS_norm : ∀ (segs : List Bytes) (buf : Bytes),
+    norm (skipS buf segs) = (buf ++ segs.flatten).dropWhile isSPHT := by
+  intro segs
+  induction segs with
+  | nil => intro buf; simp [skipS, norm]
+  | cons g rest ih =>
+    intro buf
+    simp only [skipS, List.flatten_cons]
+    cases hd : buf.dropWhile isSPHT with
+    | nil =>
+      simp only []
+      rw [ih g, C23.dropWhile_append_all isSPHT buf _ (dropWhile_nil_all _ _ hd)]
+    | cons b t =>
+      simp only []
+      rw [dropWhile_cons_append isSPHT buf b t _ hd]
+      simp [norm]
+
+theorem contLoopS_norm : ∀ (f : Nat) (acc : Bytes) (x : RS),
+    ((contLoopS f acc x).1, norm (contLoopS f acc x).2) = contLoop f acc (norm x) := by
+  intro f
+  induction f with
+  | zero => intro acc x; rfl
+  | succ f ih =>
+    intro acc x
+    rw [contLoopS]
+    have hh : headS x.1 x.2 = (norm x).head? := headS_norm x.2 x.1
+    cases hn : norm x with
+    | nil =>
+      rw [hh, hn]
+      simp only [List.head?_nil, contLoop]
+      rw [hn]
+    | cons b t =>
+      rw [hh, hn]
+      simp only [List.head?_cons, contLoop]
+      by_cases hb : isSPHT b = true
+      · simp only [hb, if_true]
+        have hsk : norm (skipS x.1 x.2) = (b :: t).dropWhile isSPHT := by
+          rw [← hn]; exact skipS_norm x.2 x.1
+        have hrl := readLineS_norm (skipS x.1 x.2).2 (skipS x.1 x.2).1
+        change mapN (readLineS (skipS x.1 x.2).1 (skipS x.1 x.2).2) = readLine (norm (skipS x.1 x.2)) at hrl
+        rw [hsk] at hrl
+        cases hr : readLineS (skipS x.1 x.2).1 (skipS x.1 x.2).2 with
+        | none =>
+          rw [hr] at hrl
+          simp only [mapN, Option.map_none] at hrl
+          rw [← hrl]
+          simp only [hsk]
+        | some q =>
+          obtain ⟨line, r⟩ := q
+          rw [hr] at hrl
+          simp only [mapN, Option.map_some] at hrl
+          rw [← hrl]
+          simp only []
+          exact ih _ r
+      · simp only [hb, if_false, Bool.false_eq_true]
+        rw [hn]
+
+theorem readContinuedS_norm (x : RS) : mapN (readContinuedS x) = readContinued (norm x) := by
+  unfold readContinuedS readContinued
+  have hrl : mapN (readLineS x.1 x.2) = readLine (norm x) := readLineS_norm x.2 x.1
+  cases hr : readLineS x.1 x.2 with
+  | none =>
+    rw [hr] at hrl
+    simp only [mapN, Option.map_none] at hrl
+    rw [← hrl]; rfl
+  | some q =>
+    obtain ⟨line, r⟩ := q
+    rw [hr] at hrl
+    simp only [mapN, Option.map_some] at hrl
+    rw [← hrl]
+    simp only []
+    by_cases hl : line.length = 0
+    · simp [hl, mapN]
+    · simp only [hl, if_false, mapN, Option.map_some]
+      rw [contLoopS_norm]
+
+theorem readHeaderS_norm : ∀ (f : Nat) (x : RS), mapN (readHeaderS f x) = readHeader f (norm x) := by
+  intro f
+  induction f with
+  | zero => intro x; rfl
+  | succ f ih =>
+    intro x
+    rw [readHeaderS, readHeader]
+    have hc := readContinuedS_norm x
+    cases hr : readContinuedS x with
+    | none =>
+      rw [hr] at hc
+      simp only [mapN, Option.map_none] at hc
+      rw [← hc]; rfl
+    | some q =>
+      obtain ⟨kv, r⟩ := q
+      rw [hr] at hc
+      simp only [mapN, Option.map_some] at hc
+      rw [← hc]
+      simp only []
+      by_cases hk : kv.length = 0
+      · simp [hk, mapN]
+      · simp only [hk, if_false]
+        cases hsp : splitAt1 58 kv with
+        | none => rfl
+        | some kvp =>
+          obtain ⟨k, v⟩ := kvp
+          simp only []
+          have hi := ih r
+          cases hrec : readHeaderS f r with
+          | none =>
+            rw [hrec] at hi
+            simp only [mapN, Option.map_none] at hi
+            rw [← hi]; rfl
+          | some q2 =>
+            obtain ⟨fs, r'⟩ := q2
+            rw [hrec] at hi
+            simp only [mapN, Option.map_some] at hi
+            rw [← hi]
+            simp only []
+            split <;> rfl
+
+theorem takeS_norm (n : Nat) (x : RS) :
+    (C23.takeSeg n x.1 x.2).1 = (norm x).take n ∧ norm (C23.takeSeg n x.1 x.2).2 = (norm x).drop n :=
+  C23.takeSeg_norm x.2 n x.1
+
+theorem readTrailer_crlf (r' : Bytes) : readTrailer (13 :: 10 :: r') = some r' := by
+  simp [readTrailer]
+
+theorem readTrailer_other (r : Bytes) (h : ∀ r', r ≠ 13 :: 10 :: r') :
+    readTrailer r = if r.length < 2 then none else if ¬ hasDoubleCRLF (r.take 4096) then none
+      else (readHeader (r.length + 1) r).map (·.2) := by
+  unfold readTrailer
+  split
+  · rename_i r' ; exact absurd rfl (h r')
+  · rfl
+
+theorem readTrailerS_norm (x : RS) : (readTrailerS x).map norm = readTrailer (norm x) := by
+  unfold readTrailerS
+  obtain ⟨p1, p2⟩ := takeS_norm 2 x
+  obtain ⟨q1, _⟩ := takeS_norm 4096 x
+  simp only [p1, q1]
+  cases hn : norm x with
+  | nil => simp [readTrailer_other [] (by intro r' h; cases h)]
+  | cons a t =>
+    cases t with
+    | nil => simp [readTrailer_other [a] (by intro r' h; cases h)]
+    | cons b r' =>
+      have htk : List.take 2 (a :: b :: r') = [a, b] := rfl
+      rw [htk]
+      simp only []
+      by_cases hc : a.toNat = 13 ∧ b.toNat = 10
+      · have ha : a = 13 := UInt8.toNat_inj.mp (by simpa using hc.1)
+        have hb : b = 10 := UInt8.toNat_inj.mp (by simpa using hc.2)
+        simp only [hc, and_self, if_true, Option.map_some, p2, hn]
+        rw [ha, hb, readTrailer_crlf]; rfl
+      · have hne : ∀ r'', a :: b :: r' ≠ 13 :: 10 :: r'' := by
+          intro r'' h
+          injection h with h1 h2
+          injection h2 with h2 _
+          exact hc ⟨by rw [h1]; rfl, by rw [h2]; rfl⟩
+        rw [readTrailer_other _ hne]
+        simp only [hc, if_false]
+        have hl : ¬ (a :: b :: r').length < 2 := by simp
+        simp only [hl, if_false]
+        by_cases hd : hasDoubleCRLF (List.take 4096 (a :: b :: r')) = true
+        · simp only [hd, not_true_eq_false, if_false]
+          have := readHeaderS_norm ((norm x).length + 1) x
+          rw [hn] at this
+          rw [← this]
+          cases readHeaderS ((a :: b :: r').length + 1) x with
+          | none => rfl
+          | some q => simp [mapN]
+        · have hd' : hasDoubleCRLF (List.take 4096 (a :: b :: r')) = false := by simpa using hd
+          rw [hd']; simp
+
+theorem readRequestHeadS_norm (x : RS) : mapN (readRequestHeadS x) = readRequestHead (norm x) := by
+  unfold readRequestHeadS readRequestHead
+  have hrl : mapN (readLineS x.1 x.2) = readLine (norm x) := readLineS_norm x.2 x.1
+  cases hr : readLineS x.1 x.2 with
+  | none =>
+    rw [hr] at hrl
+    simp only [mapN, Option.map_none] at hrl
+    rw [← hrl]; rfl
+  | some q =>
+    obtain ⟨line, r⟩ := q
+    rw [hr] at hrl
+    simp only [mapN, Option.map_some] at hrl
+    rw [← hrl]
+    simp only []
+    cases splitAt1 32 line with
+    | none => rfl
+    | some q1 =>
+      obtain ⟨m, rest1⟩ := q1
+      simp only []
+      cases splitAt1 32 rest1 with
+      | none => rfl
+      | some q2 =>
+        obtain ⟨t, p⟩ := q2
+        simp only []
+        cases parseVersion p with
+        | none => rfl
+        | some v =>
+          simp only []
+          by_cases hu : uriClass t = .accept
+          · simp only [hu, ne_eq, not_true_eq_false, if_false]
+            have hh := readHeaderS_norm ((norm r).length + 1) r
+            cases hrh : readHeaderS ((norm r).length + 1) r with
+            | none =>
+              rw [hrh] at hh
+              simp only [mapN, Option.map_none] at hh
+              rw [← hh]; rfl
+            | some q3 =>
+              obtain ⟨fs, r'⟩ := q3
+              rw [hrh] at hh
+              simp only [mapN, Option.map_some] at hh
+              rw [← hh]
+              simp only []
+              cases framing fs <;> rfl
+          · simp [hu, mapN]
+
+theorem readBodyS_norm (fr : Framing) (x : RS) :
+    ((readBodyS fr x).1, (readBodyS fr x).2.map norm) = readBody fr (norm x) := by
+  cases fr with
+  | length n =>
+    obtain ⟨d1, d2⟩ := takeS_norm n x
+    simp only [readBodyS, readBody, d1]
+    have hlen : (List.take n (norm x)).length < n ↔ (norm x).length < n := by
+      rw [List.length_take]; omega
+    by_cases hlt : (norm x).length < n
+    · simp only [hlen.mpr hlt, hlt, if_true, Option.map_none]
+      rw [List.take_of_length_le (by omega)]
+    · have : ¬ (List.take n (norm x)).length < n := fun h => hlt (hlen.mp h)
+      simp only [this, hlt, if_false, Option.map_some, d2]
+  | chunked =>
+    simp only [readBodyS, readBody]
+    have hd : (C23.decodeSegS x.1 x.2).toRes = C23.decode (norm x) := C23.decodeSegAux_eq _ x.1 x.2
+    have hb : (C23.decodeSegS x.1 x.2).body = (C23.decode (norm x)).body := congrArg C23.Res.body hd
+    have he : (C23.decodeSegS x.1 x.2).err = (C23.decode (norm x)).err := congrArg C23.Res.err hd
+    have hr : norm ((C23.decodeSegS x.1 x.2).buf, (C23.decodeSegS x.1 x.2).segs) = (C23.decode (norm x)).rest :=
+      congrArg C23.Res.rest hd
+    rw [he, hb]
+    by_cases heof : (C23.decode (norm x)).err = .eof
+    · simp only [heof, if_true]
+      rw [readTrailerS_norm, hr]
+    · simp [heof]
+
+theorem parseOneS_eq (segs : List Bytes) : parseOneS segs = parseOne segs.flatten := by
+  unfold parseOneS parseOne
+  have hh := readRequestHeadS_norm ([], segs)
+  have hn : norm ([], segs) = segs.flatten := by simp [norm]
+  rw [hn] at hh
+  cases hr : readRequestHeadS ([], segs) with
+  | none =>
+    rw [hr] at hh
+    simp only [mapN, Option.map_none] at hh
+    rw [← hh]
+  | some q =>
+    obtain ⟨rq, x⟩ := q
+    rw [hr] at hh
+    simp only [mapN, Option.map_some] at hh
+    rw [← hh]
+    simp only []
+    have hb := readBodyS_norm rq.framing x
+    rw [← hb]
+
 end BfeVerif.C24
